@@ -148,7 +148,15 @@ def run_unit(u):
             if r2 == NULL:
                 ob.prove("snapshot %d loads" % k, False, ctx.pc, on_sat=on_sat, domain='BITS'); continue
             s2 = Sim(I, r2)
-            got = P.read_locations(I, s2, P.locations(I, s2, tab, []))
+            try:
+                got = P.read_locations(I, s2, P.locations(I, s2, tab, []))
+            except MemError as e:
+                # the loaded snapshot is structurally inconsistent (an element counter promises more than the array holds)
+                okn, detail = native_counter_check(cfgname, n, hist, k)
+                rep.replays += 1; rep.obligations += 1
+                if okn: rep.violations.append(dict(key='C06:inconsistent-snapshot:' + c06_key(hist), what="snapshot %d loads into an inconsistent simulation (%s): %s" % (k, e, detail), replay=dict(cfg=cfgname, n=n, hist=hist, pattern=pattern, probes={}, kind='counter', k=k), obligation=label))
+                else: rep.inconclusive += 1; rep.notes.append(label + "structural alarm on snapshot %d not reproduced natively: %s" % (k, e))
+                continue
             want = records[k]
             ob.prove("snapshot %d has the same persisted locations as the live state" % k, set(got) == set(want), ctx.pc, on_sat=on_sat, domain='BITS',
                      sample=dict(missing=sorted(set(want) - set(got))[:4], extra=sorted(set(got) - set(want))[:4]))
@@ -175,6 +183,13 @@ def nat():
     return _nat
 
 def native_history(cfgname, n, hist, pattern, conc):
+    """crash-isolated wrapper"""
+    try:
+        return isolated(_native_history, cfgname, n, hist, pattern, conc)
+    except NativeCrash as e:
+        return True, "the native library crashed (signal %s) while loading/comparing the snapshots of history %s" % (e.sig, json.dumps(hist)), 'C06:native-crash:' + hist_key(hist)
+
+def _native_history(cfgname, n, hist, pattern, conc):
     """the same history natively with the model's probe values; compares every loaded snapshot with the live state recorded at save time"""
     N = nat(); lib = N.lib
     d = tempfile.mkdtemp(prefix='llsym_c06_'); fn = os.path.join(d, 'arch.bin').encode()
@@ -275,10 +290,36 @@ def native_snapshot_compare(cfgname, n, hist, pattern, conc):
     finally:
         ns.free(); shutil.rmtree(d, ignore_errors=True)
 
+def native_counter_check(cfgname, n, hist, k):
+    """natively: load snapshot k and look for a pointer field whose element counter is positive while the array is NULL"""
+    N = nat(); lib = N.lib
+    d = tempfile.mkdtemp(prefix='llsym_c06c_'); fn = os.path.join(d, 'arch.bin').encode()
+    ns = P.build_native_state(N, P.CONFIGS[cfgname], n)
+    try:
+        sv = lib.reb_simulation_save_to_file; sv.argtypes = [ctypes.c_void_p, ctypes.c_char_p]; sv.restype = None
+        for seg in hist:
+            for op in seg: op_native(N, ns, op)
+            sv(ns.addr, fn)
+        cf = lib.reb_simulation_create_from_file; cf.argtypes = [ctypes.c_char_p, ctypes.c_int64]; cf.restype = ctypes.c_void_p
+        a = cf(fn, k)
+        if not a: return True, "snapshot does not load natively"
+        dom = Conc(); I = new_interp(dom, P.StrictCtx()); tab = P.read_table(I)
+        bad = []
+        for e in tab:
+            if e['dtype'] in ('REB_POINTER', 'REB_POINTER_ALIGNED'):
+                cnt = ctypes.c_uint32.from_address(a + e['offset_N']).value; ptr = ctypes.c_void_p.from_address(a + e['offset']).value
+                if cnt > 0 and not ptr: bad.append("%s: counter %d but NULL array" % (e['name'], cnt))
+        return bool(bad), '; '.join(bad) or 'counters and arrays consistent natively'
+    finally:
+        ns.free(); shutil.rmtree(d, ignore_errors=True)
+
+def c06_key(hist): return hist_key(hist)
+
 def hist_key(hist):
     return '/'.join('+'.join(op[0] + (':' + str(op[1]) if len(op) > 1 and op[0] in ('switch',) else '') for op in seg) or 'nop' for seg in hist)
 
 def replay(data):
+    if data.get('kind') == 'counter': return native_counter_check(data['cfg'], data['n'], data['hist'], data['k'])
     return native_history(data['cfg'], data['n'], data['hist'], data['pattern'], {k: int(v) for k, v in data.get('probes', {}).items()})[:2]
 
 def histories(tier):
